@@ -3,13 +3,14 @@
 import json,glob,os,re
 V=os.path.dirname(os.path.dirname(os.path.abspath(__file__)))
 rows=[]
+SUM=json.load(open(os.path.join(V,'seeded','SUMMARIES.json'))) if os.path.exists(os.path.join(V,'seeded','SUMMARIES.json')) else {}
 for m in sorted(glob.glob(os.path.join(V,'seeded','*','meta.json'))):
     d=json.load(open(m)); sid=os.path.basename(os.path.dirname(m))
     patch=open(os.path.join(os.path.dirname(m),'patch.diff')).read()
     files=sorted(set(re.findall(r'^\+\+\+ b/(\S+)',patch,re.M)))
     c=d['our_check']
     cl='; '.join(sorted(set(re.sub(r':? .*','',v.split(': ')[0]) for v in c['violation_clauses'])))[:160] if c['caught'] else '—'
-    note=d.get('summary','')
+    note=SUM.get(sid,d.get('summary',''))
     rows.append('| %s | %s | %s | %s | %s |'%(d['property'],', '.join(files),note,'**caught**' if c['caught'] else 'MISSED',cl))
 tab='| property | changed file(s) | what the change does / needs | our quick check | catching scenario:clause |\n|---|---|---|---|---|\n'+'\n'.join(rows)
 p=os.path.join(V,'DESIGN.md'); s=open(p).read()
